@@ -10,24 +10,33 @@
 
    What is NOT proved (named gaps, repeated in the evidence file):
    GAP 1  AppendWholeEdges (boolean_result.cpp:475) hands out the slots of a
-          face with AtomicAdd(facePtr), so the slot order of a face's
-          halfedges depends on the schedule; Face2Tri assembles loops from
-          these slots (AssembleHalfedges starts from the smallest startVert and
-          breaks ties by slot order) and passes slot indices to the
-          triangulator.  Only the three-edge case is proved
-          (face2tri_single_triangle_slot_order_partial + reorder_halfedges_canonical);
-          independence of the triangulation of larger faces from the slot
-          order is NOT proved.
-   GAP 2  Winding03_ picks one vertex per connected component through a
-          concurrent union-find whose roots depend on the schedule; equality of
-          the result needs the winding number to be constant on a component
-          (geometric), NOT proved.
+          face with AtomicAdd(facePtr), so the slot order of a face's halfedges
+          depends on the schedule.  PROVED since round 3
+          (assemble_halfedges_slot_order_independent): Face2Tri's loop assembly
+          (AssembleHalfedges, ported) does NOT start from the first slot but
+          from the smallest startVert of a std::multimap, so for a face whose
+          startVerts are distinct the contours - as sequences of halfedge
+          CONTENTS, including their rotation and their order - are the same
+          for every slot order; what differs is only the slot NUMBER that
+          labels each halfedge (PolyVert::idx).  REMAINS, not proved, tied
+          dynamically by harness/c04_tri.cpp: the triangulator
+          (TriangulateIdxHalfedges) must be equivariant under a relabelling of
+          idx.  For a pinched face (a startVert occurring twice) the slot order
+          does leak (assemble_pinched_face_slot_order_refuted).
+   GAP 2  Winding03_ evaluates the winding number at ONE vertex per connected
+          component, the concurrent union-find root, whose identity depends on
+          the schedule.  PROVED (winding03_schedule_independent_given_constant_winding,
+          on top of C13's uf_partition): the vertex->component map is
+          schedule independent, and the result is too IF the winding oracle is
+          constant on every component.  That hypothesis is geometric (Kernel02
+          on doubles), NOT proved, tied dynamically by harness/c04_wind.cpp
+          which evaluates the winding at EVERY vertex of every component.
    GAP 3  The end-to-end claim (whole programs) is explored, not proved:
           checks/C04.py compares byte hashes across builds, arenas and seeds.
 
    Only statements closed by `exact`, each followed by Print Assumptions. *)
 From Coq Require Import ZArith List Bool Arith Permutation Sorted String.
-From MV Require Import Par.NormaliseDefs Par.Normalise Par.NormaliseGen Par.NormaliseC13 Par.ParDefs Gen.Idioms.
+From MV Require Import Par.NormaliseDefs Par.Normalise Par.NormaliseGen Par.NormaliseC13 Par.ParDefs Par.NormaliseGaps Par.Containers Par.UFConc Gen.Idioms.
 Import ListNotations.
 
 (* (a) sort_after_combine: records of a parallel loop are appended to
@@ -215,6 +224,61 @@ Theorem face2tri_single_triangle_slot_order_partial :
   In (face3 h0 h1 h2) [(a, b, c); (b, c, a); (c, a, b)].
 Proof. exact face3_rotation_lemma. Qed.
 Print Assumptions face2tri_single_triangle_slot_order_partial.
+
+(* GAP 1: AssembleHalfedges (face_op.cpp:41-66), ported with its multimap.
+   For a face whose halfedges have distinct startVerts, every assignment of
+   the halfedges to the face's slots yields the same contours as sequences of
+   halfedge contents (same order of contours, same rotation): the loop
+   assembly starts from the smallest startVert, not from the first slot.  Both
+   sides are Some (the assembly succeeded) or both None together. *)
+Theorem assemble_halfedges_slot_order_independent :
+  forall es es' : list (Z * Z),
+    Permutation es es' -> NoDup (map fst es) ->
+    option_map (contents es) (assemble_halfedges es) =
+    option_map (contents es') (assemble_halfedges es').
+Proof. exact assemble_slot_order_independent_lemma. Qed.
+Print Assumptions assemble_halfedges_slot_order_independent.
+
+Example assemble_halfedges_example :
+  Permutation face_a face_a_perm /\ NoDup (map fst face_a) /\
+  assemble_halfedges face_a <> assemble_halfedges face_a_perm /\
+  option_map (contents face_a) (assemble_halfedges face_a) =
+    Some [[(1,2);(2,3);(3,4);(4,1)]; [(5,6);(6,7);(7,5)]]%Z /\
+  option_map (contents face_a_perm) (assemble_halfedges face_a_perm) =
+    Some [[(1,2);(2,3);(3,4);(4,1)]; [(5,6);(6,7);(7,5)]]%Z.
+Proof. exact face_a_example. Qed.
+
+(* the distinct-startVert hypothesis is necessary: a pinched face *)
+Theorem assemble_pinched_face_slot_order_refuted :
+  exists es es' : list (Z * Z),
+    Permutation es es' /\
+    option_map (contents es) (assemble_halfedges es) <> option_map (contents es') (assemble_halfedges es').
+Proof. exact assemble_pinched_face_depends_on_slots. Qed.
+Print Assumptions assemble_pinched_face_slot_order_refuted.
+
+(* GAP 2: Winding03_ (boolean3.cpp:398-458).  Two complete runs of the same
+   unite calls under ANY interleavings (C13's concurrent union-find model) give
+   the same vertex->component relation, and the same w03 array provided the
+   winding oracle agrees on any two vertices of one component; root1 / root2
+   are whatever roots the two runs ended with. *)
+Theorem winding03_schedule_independent_given_constant_winding :
+  forall (n : nat) (ths0 : list thread) (st1 : uf_state) (ths1 : list thread)
+         (st2 : uf_state) (ths2 : list thread) (wind : nat -> Z) (root1 root2 : nat -> nat),
+    Forall (init_thread n) ths0 ->
+    creach (uf_init n, ths0) (st1, ths1) -> Forall finished ths1 ->
+    creach (uf_init n, ths0) (st2, ths2) -> Forall finished ths2 ->
+    (forall v, v < n -> root_of st1 v (root1 v)) ->
+    (forall v, v < n -> root_of st2 v (root2 v)) ->
+    (forall a b, a < n -> b < n -> uf_equiv n (calls_of ths0) a b -> wind a = wind b) ->
+    (forall a b, a < n -> b < n -> (same st1 a b <-> same st2 a b)) /\
+    forall v, v < n -> w03_result wind root1 v = w03_result wind root2 v.
+Proof. exact winding03_lemma. Qed.
+Print Assumptions winding03_schedule_independent_given_constant_winding.
+
+Example winding03_hyps_satisfiable :
+  Forall (init_thread 2) [] /\ creach (uf_init 2, []) (uf_init 2, []) /\ Forall finished [] /\
+  (forall v, v < 2 -> root_of (uf_init 2) v v).
+Proof. exact winding03_example. Qed.
 
 (* (d) BatchBoolean's heap (csg_tree.cpp:32-42, 449-487): MeshCompare with the
    serial tie-break has a unique maximum, so the sequence of pops is the same
